@@ -271,8 +271,17 @@ def include(ctx, eng, prop, select, why):
     eng._including = guard | {prop, ctx.prop}
     try:
         sub = Ctx(prop, ctx.tier, ctx.seed, eng.m)
-        importlib.import_module('h2verif.rules.%s' % prop.lower()).run(
-            sub, eng)
+        try:
+            importlib.import_module('h2verif.rules.%s' % prop.lower()).run(
+                sub, eng)
+        except AnalysisError as exc:
+            # the sibling lost an anchor: its clauses cannot be taken over,
+            # this property's own clauses are decided all the same (the
+            # sibling's own check reports the analysis error)
+            ctx.note('clauses shared with %s were not decided on this tree '
+                     '(%s)' % (prop, exc))
+            ctx.count('shared_clause_sets_skipped', 1)
+            return 0
     finally:
         eng._including = guard
     if callable(select):
@@ -447,3 +456,81 @@ def reads_entry_value(term, attr):
             if t[3] != 0:
                 return False
     return found
+
+
+def decrement_operand(e):
+    """For a write event of the form `x.attr -= d` or `x.attr = x.attr - d`
+    (in any arithmetically equal spelling) return the term d; None when the
+    write is not a decrement of the written location."""
+    if e.get('aug') == '-':
+        return e.operand
+    if e.get('aug') is not None:
+        return None
+    f = T.to_aff(e.value)
+    if f is None:
+        return None
+    atoms, k = f
+    me = None
+    for a, c in atoms.items():
+        if a[0] == 'a' and a[2] == e.attr and \
+                show0(a[1]) == show0(e.base):
+            me = (a, c)
+    if me is None or me[1] != 1:
+        return None
+    rest = {a: -c for a, c in atoms.items() if a is not me[0]}
+    return T.mk_aff(rest, -k)
+
+
+def role_fact(path):
+    """True (client) / False (server) / None: what the path has assumed about
+    config.client_side."""
+    for e in path.events:
+        if e.kind == 'assume':
+            s = show0(e.cond)
+            if s.endswith('config.client_side') and '(' not in s:
+                return not s.startswith('not ')
+    return None
+
+
+def parity_class(path, term):
+    """Whose parity is this AllowedStreamIDs argument?  'own' (the parity of
+    streams this endpoint opens), 'peer', or the constant 'EVEN' / 'ODD' when
+    the path says nothing about the role.  AllowedStreamIDs(client_side) and
+    an if/else over client_side that picks ODD for clients are the same."""
+    s = show0(term) if term is not None else '?'
+    if s == 'enum:AllowedStreamIDs(self.config.client_side)' or \
+            s.endswith('AllowedStreamIDs(config.client_side)'):
+        return 'own'
+    if s == 'enum:AllowedStreamIDs(not self.config.client_side)' or \
+            s.endswith('AllowedStreamIDs(not config.client_side)'):
+        return 'peer'
+    nm = enum_name(term)
+    if nm in ('EVEN', 'ODD'):
+        role = role_fact(path)
+        if role is None:
+            return nm
+        own = 'ODD' if role else 'EVEN'
+        return 'own' if nm == own else 'peer'
+    return s
+
+
+def increment_operand(e):
+    """For `x.attr += d` or `x.attr = x.attr + d` (any equal spelling) the
+    term d; None when the write is not an increment of the location."""
+    if e.get('aug') == '+':
+        return e.operand
+    if e.get('aug') is not None:
+        return None
+    f = T.to_aff(e.value)
+    if f is None:
+        return None
+    atoms, k = f
+    me = None
+    for a, c in atoms.items():
+        if a[0] == 'a' and a[2] == e.attr and \
+                show0(a[1]) == show0(e.base):
+            me = (a, c)
+    if me is None or me[1] != 1:
+        return None
+    rest = {a: c for a, c in atoms.items() if a is not me[0]}
+    return T.mk_aff(rest, k)
